@@ -399,9 +399,12 @@ def _process_condition_fields(
         # check if the condition's type matches the column
         typ = _expected_type(field.datatype)
         if not isinstance(body[1], typ):
+            # typ may be a tuple of types (e.g., for :float columns)
+            types = typ if isinstance(typ, tuple) else (typ,)
+            typename = '|'.join(t.__name__ for t in types)
             raise TSQLError(
                 'type mismatch in condition on {}: {} {} {}'
-                .format(qname, typ.__name__, op, type(body[1]).__name__))
+                .format(qname, typename, op, type(body[1]).__name__))
 
         return (op, (qname, body[1])), [qname]
 
